@@ -31,3 +31,46 @@ def factor():
 
 def scaled(ms):
     return int(ms * factor())
+
+
+# ---- hard watchdog for solver calls -----------------------------------------------------------------------------------
+# z3's timeout is cooperative; a few internal loops (observed: nla::core::patch_monomial -> mpz is_perfect_square on huge
+# rationals, 12 CPU-minutes under a 3 s timeout) never look at the cancel flag.  Every solver call is bracketed by
+# guarded(); a daemon thread in each worker process exits the PROCESS (code 97) when one call overruns its timeout by a
+# wide margin; the parent scheduler (symx/run.py) restarts the worker and re-runs the task once with another z3 seed, and
+# reports the obligation as inconclusive if that fails too.  A killed call is never counted as a verdict.
+import threading
+
+_CALL = {'t0': None, 'limit': None, 'started': False}
+WATCHDOG_EXIT = 97
+
+
+class guarded:
+    def __init__(self, timeout_ms):
+        self.limit = max(90.0, 6.0 * float(timeout_ms) / 1000.0)
+
+    def __enter__(self):
+        _CALL['limit'] = self.limit
+        _CALL['t0'] = time.time()
+
+    def __exit__(self, *a):
+        _CALL['t0'] = None
+        return False
+
+
+def start_watchdog():
+    if _CALL['started']:
+        return
+    _CALL['started'] = True
+
+    def loop():
+        while True:
+            time.sleep(2.0)
+            t0 = _CALL['t0']
+            if t0 is not None and time.time() - t0 > (_CALL['limit'] or 90.0):
+                try:
+                    os.write(2, b'symx watchdog: a solver call ignored its timeout; worker exits\n')
+                finally:
+                    os._exit(WATCHDOG_EXIT)
+
+    threading.Thread(target=loop, daemon=True).start()
